@@ -161,8 +161,9 @@ MODEL
                    "has_nulls", "compressed_v2_page", "fallback", "nested",
                    "page_split_inside_row", "null_elements", "empty_lists",
                    "uses" (e.g. "codec:LZO", "levels:BIT_PACKED",
-                   "encoding:DELTA_BYTE_ARRAY", "truncate_last_group",
-                   "trailing_bytes").
+                   "encoding:DELTA_BYTE_ARRAY", "dict:BOOLEAN" (dictionary
+                   encoded booleans: legal but not produced by mainstream
+                   writers), "truncate_last_group", "trailing_bytes").
 ``model.leaves``   [(path tuple, leaf node, max_def, max_rep)]
 """
 import struct
@@ -762,6 +763,10 @@ class _Writer(object):
                 feat["page_split_inside_row"] = True
             if ename in ("PLAIN_DICTIONARY", "RLE_DICTIONARY"):
                 seen_dict_page = True
+                if leaf["physical"] == "BOOLEAN":
+                    # legal by the letter of the format, but no mainstream writer does it
+                    # and parquet-mr cannot read it
+                    feat["uses"].add("dict:BOOLEAN")
             elif seen_dict_page and ename == "PLAIN":
                 feat["fallback"] = True
             if ename not in ("PLAIN", "PLAIN_DICTIONARY", "RLE_DICTIONARY", "RLE", "DELTA_BINARY_PACKED"):
